@@ -5,8 +5,9 @@ import Nv.Gen.C16
 oracle_c16 — line protocol (one world per script; the first line (re)initialises it):
   `init <max> <pipe|rt|wt|tcp>`      → `ok`
   `conn`                              → `r=acc<k>` | `r=rej`, then the world
+  `burst <n>` (1..8 attempts back to back) → `r=acc<a>,rej<r>`, then the world
   `send <k> <hex|->`                  → `r=ok` | `r=closed`, then the world
-  `close|pclose|drain|hold|pdata|rerr|rto|herr|rdl|hpanic|hpanicnil|werr|wto|wdl|start <k>` → `r=ok`, then the world
+  `close|pclose|drain|hold|pdata|rerr|rto|herr|rdl|hpanic|hpanicnil|werr|wto|wdl|start|cerr <k>` → `r=ok`, then the world
 World: ` n=<ConnCount> rej=<closed on accept> / <k>:x<OnExit calls>,c<conn.Close calls>,l<live loops>,d=<hex read by peer>,rd=<handler reads>`
 After every line all sessions run to quiescence. Mode `rt`: every read deadline expires before the next
 observation; mode `wt`: every blocked write times out before the next observation.
@@ -102,6 +103,14 @@ def step (st : OState) (line : String) : OState × String :=
         let r := if w'.sess.length > st.w.sess.length then s!"acc{st.w.sess.length}" else "rej"
         finishLine st w' r
       | none => (st, "bad-op")
+    | "burst", [n] =>
+      -- n connection attempts reach the accept loop back to back (it handles them one after the other)
+      match n.toNat? with
+      | none => (st, "bad-op")
+      | some n =>
+        if n = 0 ∨ n > 8 then (st, "bad-op") else
+        let w' := (List.range n).foldl (fun w _ => (wstep cfg w .connect).getD w) st.w
+        finishLine st w' s!"acc{w'.sess.length - st.w.sess.length},rej{w'.rejected - st.w.rejected}"
     | "send", [k, h] =>
       match parseHex h with
       | none => (st, "bad-op")
@@ -121,6 +130,7 @@ def step (st : OState) (line : String) : OState × String :=
     | "wto", [k] => onSess st k (envs [.writeFail])
     | "wdl", [k] => onSess st k (envs [.writeFail])
     | "start", [k] => onSess st k (envs [])
+    | "cerr", [k] => onSess st k (envs [])   -- conn.Close() will report an error: logged only
     | _, _ => (st, "bad-op")
   | _ => (st, "bad-op")
 
